@@ -370,6 +370,11 @@ def correspond(ctx, model):
     default_cases(ctx, model, rng)
     if len(ctx.violations) >= 5:
         return
+    # 2g. non-finite ENTRIES (nan, +inf, -inf) through the entry-wise proxes: model at Float (IEEE) against the code, position by position
+    #     (theorems C02_nonfinite_* state the same branch logic at the extended scalar XR)
+    nonfinite_cases(ctx, model, rng)
+    if len(ctx.violations) >= 5:
+        return
     # 2e. parameter edge cases (radius <= 0, delta <= 0, scale < 0): the code against the model incl. NaN positions, and the
     #     minimiser property exactly where the Edge theorems assert it
     edge_cases(ctx, model, rng)
@@ -574,6 +579,63 @@ def default_cases(ctx, model, rng):
             if p_impl.shape != np.asarray(p_model).shape or not common.allclose(p_impl, np.real(p_model), k=max(n, 1), rtol=1e-9):
                 ctx.disagree(f"prox.{fam}.defaults", _public(case), pc._js(p_impl), pc._js(p_model), oracle=None,
                              note="object built with its default arguments / prox with the default lam differs from the model at the recorded defaults")
+
+
+def _ieee_agree(a, b, rtol=1e-9):
+    """NaN in the same positions, infinities equal with their sign, finite entries within tolerance"""
+    a, b = np.asarray(a, dtype=np.float64), np.asarray(b, dtype=np.float64)
+    if a.shape != b.shape or not np.array_equal(np.isnan(a), np.isnan(b)):
+        return False
+    ia, ib = np.isinf(a), np.isinf(b)
+    if not np.array_equal(ia, ib) or not np.array_equal(np.sign(a[ia]), np.sign(b[ib])):
+        return False
+    ok = np.isfinite(a)
+    return bool(np.all(np.abs(a[ok] - b[ok]) <= rtol * (1.0 + np.maximum(np.abs(a[ok]), np.abs(b[ok])))))
+
+
+def nonfinite_cases(ctx, model, rng):
+    """`L0Norm`, `L1Norm`, `NonNegativeIndicator`, separable `HuberNorm`, `SquaredL2Norm`, `ZeroFunctional` on vectors that contain NaN and
+    ±inf entries (every pattern of one special entry among finite ones, and random mixtures): what the code returns entry by entry must be
+    what the model returns at `Float` — `L0Norm` through the NaN-faithful `l0Prox1X` (a NaN entry becomes 0)."""
+    from scico import functional as F
+    import scico.numpy as snp
+
+    specials = [float("nan"), float("inf"), float("-inf")]
+    fams = [("l0", lambda P: F.L0Norm(), "l0x"), ("l1", lambda P: F.L1Norm(), "l1"), ("nonneg", lambda P: F.NonNegativeIndicator(), "nonneg"),
+            ("hubersep", lambda P: F.HuberNorm(delta=float(P["delta"]), separable=True), "hubersep"), ("sql2", lambda P: F.SquaredL2Norm(), "sql2"),
+            ("zero", lambda P: F.ZeroFunctional(), "zero")]
+    for fam, build, op in fams:
+        vs = []
+        for sp in specials:  # one special entry, at the first / a middle / the last position
+            for pos in (0, 2, 4):
+                v = pg.dy(rng, 5)
+                v[pos] = sp
+                vs.append(v)
+        for _ in range(ctx.n(3, 20)):
+            v = pg.dy(rng, 6)
+            for k in range(6):
+                if rng.random() < 0.4:
+                    v[k] = specials[int(rng.integers(0, 3))]
+            vs.append(v)
+        for v in vs:
+            P = {"delta": pg.pick(rng, pg.DELTAS)} if fam == "hubersep" else {}
+            lam = pg.pick(rng, pg.LAMS)
+            with warnings.catch_warnings():
+                warnings.simplefilter("ignore")
+                p_impl = np.asarray(build(P).prox(snp.array(v), lam), dtype=np.float64)
+                kw = {"v": common.fs2b(v)}
+                if op not in ("nonneg", "zero"):
+                    kw["lam"] = common.f2b(lam)
+                if fam == "hubersep":
+                    kw["delta"] = common.f2b(P["delta"])
+                p_model = np.asarray(common.b2fs(model.call(op, **kw)["out"]), dtype=np.float64)
+            kinds = "".join(sorted({"n" if np.isnan(t) else ("p" if t > 0 else "m") for t in v if not np.isfinite(t)}))
+            ctx.count(f"nonfinite:{fam}:{kinds}")
+            desc = {"fam": fam, "params": P, "shape": [int(v.size)], "lam": lam, "stream": "nonfinite", "v": [repr(float(t)) for t in v]}
+            ctx.case({k: desc[k] for k in ("fam", "params", "shape", "lam", "stream")}, "nf-" + hashlib.sha1(json.dumps(desc, sort_keys=True).encode()).hexdigest()[:16])
+            if not _ieee_agree(p_impl, p_model):
+                ctx.disagree(f"prox.{fam}.nonfinite", desc, [repr(float(t)) for t in p_impl], [repr(float(t)) for t in p_model],
+                             note="entries nan / +-inf: the code and the model at Float differ")
 
 
 def _nan_agree(a, b, rtol=1e-9):
